@@ -332,16 +332,19 @@ unit({
 TH = 'src/Sprite/TilesetHeaders.cpp'; TL = 'src/Sprite/TilesetLoader.cpp'
 SPR_TM = dict(BMP_TM, **{'Tag': 'Tag', 'SectionHeader': 'SectionHeader', 'TilesetHeader': 'TilesetHeader', 'PpalHeader': 'PpalHeader', 'PaletteHeader': 'PaletteHeader',
                          'std::uint32_t': 'uint32_t', 'ImageMeta': 'ImageMeta', 'ImageType': 'ImageType', 'ArtFile': 'ArtFile', 'Palette8Bit': 'Palette8Bit',
+                         'Point16': 'Point16', 'LayerMetadata': 'LayerMetadata', 'Layer': 'Layer', 'Frame': 'Frame', 'Animation::Frame': 'Frame', 'std::vector<Layer>': 'vec_Layer', 'Stream::Writer': 'Wr', 'Stream::Reader': 'Rd',
                          'std::vector<Palette8Bit>': 'vec_Palette8Bit', 'std::vector<ImageMeta>': 'vec_ImageMeta', 'std::vector<Animation>': 'vec_Animation'})
 def _fn(file, qual, cname, **kw):
     d = {'file': file, 'qual': qual, 'cname': cname}; d.update(kw); return d
 unit({
     'name': 'sprh',
+    'includes': ['kr.h', 'wr.h'],
     'typemap': SPR_TM,
     'enums': [('src/Bitmap/BmpCompression.h', 'BmpCompression'), ('src/Bitmap/BitmapFile.h', 'ScanLineOrientation')],
     'structs': [STR_VIEW, TAG_T] + BMP_STRUCTS + [('src/Sprite/SectionHeader.h', 'SectionHeader'), ('src/Sprite/TilesetHeaders.h', 'TilesetHeader'), ('src/Sprite/TilesetHeaders.h', 'PpalHeader'),
                 ('src/Sprite/PaletteHeader.h', 'PaletteHeader'), 'typedef struct Palette8Bit { Color e[256]; } Palette8Bit;',
                 ('src/Sprite/ImageMeta.h', 'ImageType'), ('src/Sprite/ImageMeta.h', 'ImageMeta'),
+                ('src/Point.h', 'Point16'), ('src/Sprite/Animation.h', 'LayerMetadata'), ('src/Sprite/Animation.h', 'Layer'), VIEW('vec_Layer', 'Layer'), ('src/Sprite/Animation.h', 'Frame'),
                 VIEW('vec_Palette8Bit', 'Palette8Bit'), VIEW('vec_ImageMeta', 'ImageMeta'), 'typedef struct Animation Animation;', VIEW('vec_Animation', 'Animation'),
                 ('src/Sprite/ArtFile.h', 'ArtFile')],
     'globals': BMP_GLOBALS + [
@@ -380,6 +383,10 @@ unit({
         _fn('src/Sprite/PaletteHeader.cpp', 'PaletteHeader::CreatePaletteHeader', 'PaletteHeader_CreatePaletteHeader', cls='PaletteHeader', static=True,
             calls={'PaletteHeader': N('PaletteHeader_default', recv='none')}),
         _fn('src/Sprite/PaletteHeader.cpp', 'PaletteHeader::Validate', 'PaletteHeader_Validate', cls='PaletteHeader'),
+        _fn('src/Sprite/ArtWriter.cpp', 'ArtFile::WriteFrame', 'ArtFile_WriteFrame', cls='ArtFile', static=True,
+            calls={'Write': {1: [(r'\(\*frame\)\.layers', T('Wr_Write', args=['vec'])), (r'.*', T('Wr_Write', args=['objtmp']))]}}, views=[(r'\(\*frame\)\.layers', 'vec')]),
+        _fn('src/Sprite/ArtReader.cpp', 'ArtFile::ReadFrame', 'ArtFile_ReadFrame', cls='ArtFile', static=True, ret_cxx='Frame',
+            calls={'Read': {1: [(r'frame\.layers', T('Rd_Read', args=['vec'])), (r'.*', T('Rd_Read', args=['obj']))], }, 'resize': T('vec_Layer_resize')}, views=[(r'frame\.layers', 'vec')]),
         _fn('src/Sprite/ArtFile.cpp', 'ArtFile::VerifyImageIndexInBounds', 'ArtFile_VerifyImageIndexInBounds', cls='ArtFile'),
         _fn('src/Sprite/ArtFile.cpp', 'ArtFile::ValidateImageMetadata', 'ArtFile_ValidateImageMetadata', cls='ArtFile', rangefor={'imageMeta': 'ImageMeta'}),
     ],
@@ -564,15 +571,15 @@ def _fr(name, **kw):
 unit({
     'name': 'filer',
     'includes': ['ifsmodel.h'],
-    'typemap': {'std::ifstream': 'Ifs', 'std::string': 'str', 'FileReader': 'FileReader'},
+    'typemap': {'std::ifstream': 'Ifs', 'std::string': 'str', 'FileReader': 'FileReader', 'FileSliceReader': 'FSlice'},
     'structs': [STR_VIEW, ('src/Stream/FileReader.h', 'FileReader')],
     'calls': {
         'read': N('Ifs_read'), 'gcount': N('Ifs_gcount'), 'tellg': N('Ifs_tellg'), 'clear': N('Ifs_clear'),
         'seekg': {1: N('Ifs_seekg'), 2: N('Ifs_seekg_end')},
-        'Position': N('FileReader_Position'),
+        'Position': N('FileReader_Position'), 'SeekForward': T('FileReader_SeekForward'), 'Slice': {2: T('FileReader_Slice2')},
     },
     'text_subst': [(r'!\s*self->file\b(?!\.)', '!Ifs_ok(&self->file)')],
-    'functions': [_fr('ReadImplementation'), _fr('ReadPartial'), _fr('Length'), _fr('Position'), _fr('Seek'), _fr('SeekForward'), _fr('SeekBackward')],
+    'functions': [_fr('ReadImplementation'), _fr('ReadPartial'), _fr('Length'), _fr('Position'), _fr('Seek'), _fr('SeekForward'), _fr('SeekBackward'), _fr('Slice', nparams=1, cname='FileReader_Slice1')],
 })
 
 # --------------------------------------------------------------------------- U-VOLR (VolFile: reading side)
@@ -603,5 +610,43 @@ unit({
         _vr('GetName'), _vr('GetCompressionCode'), _vr('GetSize'), _vr('GetFileOffset'), _vr('GetFilenameOffset'),
         _vr('OpenStream'), _vr('GetSectionHeader'), _vr('ExtractFile', nparams=2, autos={'indexEntry': 'VolIndexEntry'}),
         _vr('ReadTag'), _vr('ReadVolHeader'), _vr('CountValidEntries'),
+    ],
+})
+
+# --------------------------------------------------------------------------- U-MAPR / U-MAPW (map reader and writer over the stream contracts)
+MR_ = 'src/Map/MapReader.cpp'; MW_ = 'src/Map/MapWriter.cpp'
+def _mr(name, **kw):
+    d = {'file': MR_, 'qual': 'Map::' + name, 'cls': 'Map', 'static': True, 'cname': 'Map_' + name, 'members': {}}
+    d.update(kw); return d
+def _mw(name, **kw):
+    d = {'file': MW_, 'qual': 'Map::' + name, 'cls': 'Map', 'cname': 'Map_' + name}
+    d.update(kw); return d
+unit({
+    'name': 'mapio',
+    'includes': ['kr.h', 'wr.h'],
+    'typemap': dict(MAP_TYPEMAP, **{'Stream::Reader': 'Rd', 'Stream::BidirectionalReader': 'Rd', 'Stream::Writer': 'Wr', 'std::array<char,10>': 'arr_char_10', 'std::size_t': 'size_t'}),
+    'enums': [('src/Map/CellType.h', 'CellType')],
+    'structs': [ARR('arr_char_10', 'char', 10)] + MAP_STRUCTS,
+    'globals': [{'file': MR_, 'qual': 'tilesetHeader', 'ctype': 'arr_char_10', 'cname': 'tilesetHeader'}],
+    'scoped': {'CellType': 'CellType', 'MapHeader': 'MapHeader'},
+    'views': MAP_VIEWS + [(r'map\.tiles', 'vec'), (r'map\.tileMappings', 'vec'), (r'map\.terrainTypes', 'vec'), (r'tileGroup\.mappingIndices', 'vec'), (r'tileGroup\.name', 'str'), (r'\(\*tilesetSources\)', 'vec')],
+    'default_ctors': {'Map': 'Map_ctor', 'MapHeader': 'MapHeader_ctor'},
+    'calls': {
+        'CheckMinVersionTag': T('Map_CheckMinVersionTag', recv='none'),
+        'WidthInTiles': N('MapHeader_WidthInTiles'), 'TileCount': N('MapHeader_TileCount'),
+        'resize': [(r'.*tiles', T('vec_Tile_resize')), (r'.*mappingIndices', T('vec_u32_resize'))],
+        'Read': {1: [(r'map\.tiles|tileGroup\.mappingIndices', T('Rd_Read', args=['vec'])), (r'.*', T('Rd_Read', args=['obj']))],
+                 ('uint32_t', 1): [(r'map\.tileMappings', T('Reader_ReadSized_u32_vec_TileMapping', args=['ref'])), (r'map\.terrainTypes', T('Reader_ReadSized_u32_vec_TerrainType', args=['ref'])),
+                                   (r'tileGroup\.name', T('Reader_ReadSized_u32_str', args=['ref']))]},
+        'ReadTilesetSources': T('Map_ReadTilesetSources', recv='none', args=['ref', 'ref', None]),
+        'ReadTilesetHeader': T('Map_ReadTilesetHeader', recv='none', args=['ref']),
+        'SeekForward': T('Rd_SeekForward'),
+        'IsPowerOf2': N('IsPowerOf2', recv='none', free=True), 'Log2OfPowerOf2': N('Log2OfPowerOf2', recv='none', free=True),
+        'GetWidthInTilesLog2': T('Map_GetWidthInTilesLog2'),
+        'Write': {1: [(r'.*', T('Wr_Write', args=['objtmp']))]},
+    },
+    'functions': [
+        _mr('SkipSaveGameHeader'), _mr('ReadMapBeginning'), _mr('ReadTilesetHeader'), _mr('ReadVersionTag'), _mr('ReadTileGroup'),
+        _mw('CreateHeader'), _mw('GetWidthInTilesLog2'), _mw('WriteContainerSize', static=True),
     ],
 })
